@@ -16,6 +16,7 @@ def run(rep):
     l3(rep, w)
     l4(rep, w)
     l5(rep, w)
+    l6(rep, w)
 
 
 def first_getter_from(f, b, limit=6):
@@ -268,12 +269,25 @@ def l4(rep, w):
     """the throw site recorded for tracebacks (fiber.error_ip) has exactly two writers: `throw` records it, and delivering
     the exception to a catch block clears it; runtime_error is its only reader"""
     r = rep.rule('L4', 'the recorded throw site is set only by an explicit throw and cleared when a catch block takes the exception', floor=3)
-    ws = {}
-    for (g, sp, k) in c01.field_writers(w, 'yarel::object::ObjFiber', 'error_ip'):
-        if k == 'store':
-            ws.setdefault(g.path, []).append(sp)
-    r.check(set(ws) == {VM + 'throw_impl', VM + 'unwind_stack'}, 'writers of ObjFiber.error_ip: throw_impl, unwind_stack',
-            'error_ip is written in %s: errors that are not explicit throws record a site that nothing clears, or the clearing store is gone' % sorted(ws))
+    # who may give error_ip a code address: `throw` (the current ip) and unwind_stack (the call site saved in a surviving frame);
+    # every other writer may only clear it
+    setters, clearers = set(), set()
+    for g in w.yarel.fns.values():
+        for bi in g.normal_blocks():
+            for s_ in g.blocks[bi]['s']:
+                d = s_.get('d', {})
+                if not (d.get('p') and isinstance(d['p'][-1], dict) and d['p'][-1].get('n') == 'error_ip' and c01.base_type_before_last(g, d) == 'yarel::object::ObjFiber'):
+                    continue
+                rr = s_['r']
+                isnone = rr.get('rv') == 'agg' and rr.get('v') == 'None'
+                pl = op_place(rr.get('o', {}) or {})
+                if pl is not None and not pl.get('p'):
+                    isnone = isnone or any(s2.get('d', {}).get('l') == pl['l'] and not s2['d'].get('p') and s2['r'].get('rv') == 'agg' and s2['r'].get('v') == 'None'
+                                           for b2 in g.blocks for s2 in b2['s'])
+                (clearers if isnone else setters).add(g.path)
+    r.check(setters == {VM + 'throw_impl', VM + 'unwind_stack'} and (VM + 'unwind_stack') in clearers, 'error_ip is given an address only by throw_impl / unwind_stack; others only clear it (%s)' % sorted(x.rsplit('::', 1)[-1] for x in clearers),
+            'error_ip receives a code address in %s (expected throw_impl and unwind_stack only; clearing writers: %s): errors that are not explicit throws record a site that nothing clears, '
+            'or the clearing store is gone' % (sorted(setters), sorted(clearers)))
     u = w.require_fn(VM + 'unwind_stack', 'C17')
     cleared = False
     guarded = False
@@ -336,3 +350,33 @@ def l5(rep, w):
                     if INT_BITS.get(st, 0) >= 32 and 0 < INT_BITS.get(dt, 0) < 32 and 'line' in operand_fields(f, origins(f), rr['o']):
                         narrow.append('%s as %s' % (st, dt))
         r.check(not narrow, '%s: no narrowing of a line number' % f.path.rsplit('::', 1)[-1], '%s narrows a line number (%s)' % (f.path, ', '.join(narrow)), f.loc())
+
+
+def l6(rep, w, prop='C17'):
+    """the recorded throw site is an address into one function's code; runtime_error stores it into the innermost *surviving* frame
+    and reads that frame's line table with it. So it must not outlive the frame it points into: every function that removes frames
+    and carries on has to re-point or clear it."""
+    import c08
+    r = rep.rule('L6', 'the recorded throw site never outlives its frame: every function that removes call frames and continues re-points or clears error_ip', floor=2)
+    n = 0
+    for p_, f in sorted(w.yarel.fns.items()):
+        if not p_.startswith(VM) or p_ == VM + 'reset_stack':
+            continue
+        org = None
+        removes = []
+        for bi, t in f.calls():
+            nm = strip_generics(callee_name(t) or '')
+            if nm in ('std::vec::Vec::truncate', 'std::vec::Vec::pop', 'std::vec::Vec::clear', 'std::vec::Vec::remove') and t['args']:
+                if org is None:
+                    org = origins(f)
+                if 'frames' in operand_fields(f, org, t['args'][0]):
+                    removes.append(bi)
+        if not removes:
+            continue
+        n += 1
+        _, ws = c08.field_accesses(w, f, 0)
+        r.check(('yarel::object::ObjFiber', 'error_ip') in ws, '%s updates error_ip' % p_.rsplit('::', 1)[-1],
+                '%s removes call frames but never touches the recorded throw site: if the site lies in a removed frame\'s function, the next uncaught error is reported '
+                'through the wrong chunk (wrong line, or an out-of-bounds panic in runtime_error)' % p_, f.loc())
+    if n < 2:
+        raise Broken(prop, 'floor', 'frame-removing functions found: %d' % n)
